@@ -19,7 +19,8 @@ extern "C" {
 
 namespace {
 
-enum { OP_SPEC = 1, OP_LAUNCH, OP_JOIN, OP_JOIN_ALL, OP_SET_TIMEOUT, OP_SLEEP, OP_YIELD, OP_ATEXIT, OP_ATEXIT_MAIN, OP_COUNT_QUERY, OP_DETACH, OP_CALL_ONCE, OP_LIB_REINIT };
+enum { OP_SPEC = 1, OP_LAUNCH, OP_JOIN, OP_JOIN_ALL, OP_SET_TIMEOUT, OP_SLEEP, OP_YIELD, OP_ATEXIT, OP_ATEXIT_MAIN, OP_COUNT_QUERY, OP_DETACH, OP_CALL_ONCE, OP_LIB_REINIT, OP_EXT_PARTICIPATE };
+// OP_EXT_PARTICIPATE: a = virtual ns between the two calls: aws_thread_increment_unjoined_count(); ...; aws_thread_decrement_unjoined_count()
 // OP_CALL_ONCE: a = flag (0..2), b = the once-function registers an at-exit callback on the thread it runs on
 static const int MAXT = 12;
 
@@ -54,6 +55,8 @@ struct Ctx {
     std::map<int, std::vector<uint64_t>> ja_reads; // per calling simulated thread: wall-clock reads made inside its join_all call
     int main_tid = 0;
     uint64_t timeout_ns = 0;
+    struct Ext { uint64_t inc_done_seq; bool dec_invoked; }; // a thread the library does not manage takes part in the unjoined count (public API)
+    std::deque<Ext> exts;
     struct TSet { uint64_t b, e, old_v, new_v; };
     std::vector<TSet> timeout_sets; // every set_managed_join_timeout call: event sequence numbers of its begin and end, value before and after
 };
@@ -263,6 +266,9 @@ void do_join_all(Ctx &c, bool final_call) {
         sim::probe("join_all_timed_out");
         return;
     }
+    for (auto &e : c.exts)
+        if (e.inc_done_seq < seq_at_call && !e.dec_invoked)
+            sim::violation("c20:join-all-early", "join_all_managed returned while a participant that incremented the unjoined count before the call has not decremented it yet");
     // closure: managed threads launched (at any time) by members of S
     bool changed = true;
     while (changed) {
@@ -374,6 +380,18 @@ void body(Ctx &c, int id) {
                     sim::note(sim::PK_HARNESS, nullptr, 1300);
                     aws_common_library_clean_up();
                     aws_common_library_init(aws_default_allocator());
+                    c.ops_done++;
+                }
+                break;
+            case OP_EXT_PARTICIPATE:
+                if (id == 0 || !c.t[id].managed) { // "event loop threads which participate by inc/dec": join-all waits for them too
+                    aws_thread_increment_unjoined_count();
+                    c.exts.push_back(Ctx::Ext{sim::seq(), false});
+                    Ctx::Ext &e = c.exts.back();
+                    sim::probe("external_participant_in_the_unjoined_count");
+                    if (op.a) sim::sleep_ns((uint64_t)op.a); else sim::yield();
+                    e.dec_invoked = true;
+                    aws_thread_decrement_unjoined_count();
                     c.ops_done++;
                 }
                 break;
@@ -518,7 +536,8 @@ void gen(uint64_t seed, int tier, sim::Plan &p) {
             else if (w < 6) { o.kind = OP_YIELD; }
             else if (w < 9) { o.kind = OP_SLEEP; o.a = r.pick(std::vector<int64_t>{1000, 100000, 1000000, 1000000, 50000000, 1000000000}); }
             else if (r.chance(0.5)) { o.kind = OP_COUNT_QUERY; }
-            else { o.kind = OP_CALL_ONCE; o.a = r.range(0, 2); o.b = r.chance(0.6); }
+            else if (r.chance(0.7) || t > nmanual) { o.kind = OP_CALL_ONCE; o.a = r.range(0, 2); o.b = r.chance(0.6); }
+            else { o.kind = OP_EXT_PARTICIPATE; o.a = r.pick(std::vector<int64_t>{0, 1000, 1000000, 50000000}); }
             p.ops.push_back(o);
         }
         if (t <= nmanual && extra_callers < max_extra_callers && r.chance(0.3)) { extra_callers++; sim::Op j; j.thr = t; j.kind = OP_JOIN_ALL; p.ops.push_back(j); } // concurrent join-all callers
@@ -591,6 +610,7 @@ std::string op_text(const sim::Op &op) {
         case OP_ATEXIT: snprintf(b, sizeof b, "thread %d: aws_thread_current_at_exit(next tag)%s%s", op.thr, op.a ? " [its callback registers one more callback]" : "", op.b % 4 ? " [the identical registration is repeated]" : ""); break;
         case OP_ATEXIT_MAIN: snprintf(b, sizeof b, "main: aws_thread_current_at_exit (must be refused: not an aws thread)"); break;
         case OP_COUNT_QUERY: snprintf(b, sizeof b, "thread %d: aws_thread_get_managed_thread_count()", op.thr); break;
+        case OP_EXT_PARTICIPATE: snprintf(b, sizeof b, "thread %d: aws_thread_increment_unjoined_count(); %lld ns; aws_thread_decrement_unjoined_count()", op.thr, (long long)op.a); break;
         case OP_LIB_REINIT: snprintf(b, sizeof b, "main: aws_common_library_clean_up(); aws_common_library_init()"); break;
         case OP_CALL_ONCE: snprintf(b, sizeof b, "thread %d: aws_thread_call_once(flag %lld)%s", op.thr, (long long)(op.a % 3), op.b ? " [the function registers an at-exit callback]" : ""); break;
         default: snprintf(b, sizeof b, "?");
